@@ -295,6 +295,22 @@ class SymNP(types.ModuleType):
             return np.cov(m, y, rowvar=rowvar, aweights=np.ones(n), ddof=1, **kw)
         return np.cov(m, y, rowvar=rowvar, bias=bias, ddof=ddof, fweights=fweights, aweights=aweights, **kw)
 
+    def arctan2(self, y, x, *a, **kw):
+        ya, xa = np.asarray(y), np.asarray(x)
+        if ya.dtype != object and xa.dtype != object:
+            return np.arctan2(y, x, *a, **kw)
+        from .core import Angle, qval
+        lift = lambda v: v if isinstance(v, Sym) else Sym(qval(float(v)))
+        out = np.frompyfunc(lambda p, q: Angle(lift(p), lift(q)), 2, 1)(ya, xa)
+        return out
+
+    def sign(self, a, *k, **kw):
+        if isinstance(a, Sym):
+            return a.sign()
+        if isinstance(a, np.ndarray) and a.dtype == object:
+            return np.frompyfunc(lambda v: v.sign() if isinstance(v, Sym) else float(np.sign(v)), 1, 1)(a)
+        return np.sign(a, *k, **kw)
+
     symbolic_trig = True
     force_object = True
     symbolic_pi = True
